@@ -152,8 +152,9 @@ Proof. exact xstep_proj. Qed.
    has Stop returned, Protocol stopped, sendLoop / recvLoop / syncLoop gone.  If moreover the
    run satisfies the side condition [side_ok] (when Done was enqueued the send queue was empty
    and sendLoop was not inside a batch - the negation is known finding
-   done-sent-without-agency; when WaitSendQueueDrained reported "drained" sendLoop had handed
-   its segment over - the negation is the drain race below) and the 250 ms drain wait did not
+   done-sent-without-agency; that WaitSendQueueDrained reports "drained" only after sendLoop
+   handed its segment over is no longer a hypothesis: it follows from the sendInFlight flag of
+   fix a8c9a5c, C21_stop_drain_after_handoff) and the 250 ms drain wait did not
    expire, then Done is on the wire, was written at a moment the client had agency, is the
    last message on the wire, and everything before it is a RequestNext. *)
 Theorem C21_stop : forall limit p bud ls s,
@@ -165,7 +166,7 @@ Proof.
   intros limit p bud ls s L1 L2 HR NT ST.
   pose proof (reach_run limit ls L1 _ _ (reach_init limit p bud) HR) as RS.
   split; [apply (stuck_returned limit s L1 L2 RS NT ST)|].
-  intros SO TO. apply (stuck_clean limit s L1 L2 RS NT ST). apply good_of_side; assumption.
+  intros SO TO. apply (stuck_clean limit s L1 L2 RS NT ST). apply good_of_side; try assumption. apply RS.
 Qed.
 Print Assumptions C21_stop.
 
@@ -188,8 +189,8 @@ Theorem C21_stop_done_position : forall limit p bud ls s,
   exists pre, written (e s) = pre ++ [(QDone, true)] /\ all_req pre.
 Proof.
   intros limit p bud ls s L1 HR SO TO.
-  apply (done_position limit). apply (reach_run limit ls L1 _ _ (reach_init limit p bud) HR).
-  apply good_of_side; assumption.
+  pose proof (reach_run limit ls L1 _ _ (reach_init limit p bud) HR) as RS.
+  apply (done_position limit); [exact RS|]. apply good_of_side; try assumption. apply RS.
 Qed.
 Print Assumptions C21_stop_done_position.
 
@@ -251,23 +252,49 @@ Proof.
   eexists. split; [vm_compute; reflexivity|]. repeat split.
 Qed.
 
-(* a third way to violate the clause, found on the model (not observed by the harness: the
-   window is a few microseconds against a 2 ms poll): WaitSendQueueDrained tests
-   pendingSendBytes and the queue length, both already 0 once sendLoop has TAKEN Done; if
-   Stop() then closes stopChan before sendLoop has handed the segment to the muxer, sendLoop
-   returns on stopChan and Done never reaches the wire.  Only [drain_clean] fails. *)
-Theorem C21_stop_refuted_drain_race :
-  exists ls s, xrun 1 (xinit false 1) ls = Some s
-  /\ client_stuck 1 s = true /\ tp (k s) = TReturned
-  /\ gaveup (k s) = false /\ enq_clean (k s) = true /\ timedout (k s) = false /\ drain_clean (k s) = false
-  /\ wire (e s) = [(QReq, true)] /\ dropped (e s) = true.
+(* The drain race of the pinned tree (WaitSendQueueDrained reporting "drained" once sendLoop
+   had TAKEN Done, before the segment reached the muxer; repaired by a8c9a5c) is gone: with
+   Protocol.sendInFlight the flag covers the whole batch phase, so in EVERY reachable state,
+   whenever Stop() observed "drained", sendLoop had already handed the batch over ... *)
+Theorem C21_stop_drain_after_handoff : forall limit p bud ls s,
+  1 <= limit -> xrun limit (xinit p bud) ls = Some s ->
+  drain_clean (k s) = true /\ (in_batch (sp (e s)) = true -> infl (e s) = true).
 Proof.
-  exists [XTakeTok; XDeq; XBatchEnd; XSegOut; XB (LSrvReply upd_a); XB LDeliver;
-          XStopCall; XStopBusy; XStopLife; XStopEnq; XTakeTok; XDeq; XStopDrained;
-          XStopUnbusy; XStopClose; XStopProto; XStopUnlife; XSendExit; XB (LCb upd_a); XB LPush; XRecvExit;
-          XSyncExit; XStopReturn].
-  eexists. split; [vm_compute; reflexivity|]. repeat split.
+  intros limit p bud ls s L1 HR.
+  destruct (reach_run limit ls L1 _ _ (reach_init limit p bud) HR) as ((_ & _ & _ & _ & _ & _ & _ & _ & J9 & J10) & _ & _).
+  split; assumption.
 Qed.
+
+(* ... and the schedule that lost Done on the pinned tree (Done taken, "drained" observed, stopChan
+   closed, sendLoop returns with the segment in hand) is not a run of the model any more: the
+   XStopDrained step is refused while the batch is in flight *)
+Example C21_stop_drain_race_closed :
+  xrun 1 (xinit false 1)
+    [XTakeTok; XDeq; XBatchEnd; XSegOut; XB (LSrvReply upd_a); XB LDeliver;
+     XStopCall; XStopBusy; XStopLife; XStopEnq; XTakeTok; XDeq; XStopDrained] = None
+  /\ exists s, xrun 1 (xinit false 1)
+    [XTakeTok; XDeq; XBatchEnd; XSegOut; XB (LSrvReply upd_a); XB LDeliver;
+     XStopCall; XStopBusy; XStopLife; XStopEnq; XTakeTok; XDeq] = Some s
+     /\ enabled 1 s XStopDrained = false /\ enabled 1 s XBatchEnd = true.
+Proof. split; [vm_compute; reflexivity|]. eexists. split; [vm_compute; reflexivity|]. split; reflexivity. Qed.
+
+(* RequestNext behind Done.  Under the hypotheses of C21_stop it is impossible at every state
+   (C21_stop_done_position: Done is the LAST written message): Stop() holds busyMutex until
+   "drained", "drained" now implies the batch with Done was handed over, and after Done's
+   transition (state Done, no agency) sendLoop never gets a token again.  It remains possible
+   ONLY when the 250 ms drain wait expires with Done still queued (timedout = true, outside
+   C21_stop's Done clause): busyMutex.Unlock() lets a syncLoop that already took its ready
+   signal queue requests behind Done before Protocol.Stop() closes stopChan; if sendLoop gets
+   its token in that window the requests are pipelined behind Done.  In the code this needs
+   sendLoop to be starved for the whole 250 ms although it holds agency. *)
+Example C21_stop_timeout_request_behind_done :
+  exists s, xrun 1 (xinit false 1)
+    [XTakeTok; XDeq; XBatchEnd; XSegOut; XB (LSrvReply upd_a); XB LDeliver; XB (LCb upd_a); XB LPush; XB LTake;
+     XStopCall; XStopBusy; XStopLife; XStopEnq; XStopDrainTimeout; XStopUnbusy;
+     XB LProc; XB LSendReq; XTakeTok; XDeq; XDeq; XBatchEnd; XSegOut] = Some s
+  /\ timedout (k s) = true /\ side_ok s = true
+  /\ wire (e s) = [(QReq, true); (QDone, true); (QReq, true)].
+Proof. eexists. split; [vm_compute; reflexivity|]. repeat split. Qed.
 
 (* when the 250 ms drain wait expires (server silent at the tip with a request outstanding)
    Stop() tears the protocol down without Done: nothing at all is written after that *)
